@@ -607,6 +607,17 @@ class Hessian(Hessdiag):
             order = dict(backward=1, forward=1).get(method, 2)
         super(Hessian, self).__init__(f, step=step, method=method, order=order, **options)
 
+    def _get_functions(self, args, kwds):
+        diff, fun = super(Hessian, self)._get_functions(args, kwds)
+
+        def scalar_fun(x):
+            f_x = fun(x)
+            if isinstance(f_x, np.ndarray) and f_x.size == 1:
+                return f_x.reshape(())  # length-1 array -> scalar
+            return f_x
+
+        return diff, scalar_fun
+
 
 if __name__ == "__main__":
     from numdifftools.testing import test_docstrings
